@@ -77,6 +77,25 @@ def homomorphism(lit: str) -> bool:
     return regex_source(lit) == want
 
 
+def entry_homomorphism(lit: str) -> bool:
+    """the same through the real entry point compile_pattern (pattern normalisation included): every character of the search
+    pattern, leading and trailing blanks too, arrives in the regex
+    pre: 1 <= len(lit) <= LEN and in_alpha(lit) and lit[0] != "^" and lit[-1] != "$"
+    post: _
+    """
+    vp = "MAJOR.MINOR" if ENGINE == "v2" else "{semver}"
+    saved = MOD.re
+    MOD.re = _ReShim
+    try:
+        got = MOD.compile_pattern.__wrapped__(vp, lit).regexp
+    finally:
+        MOD.re = saved
+    want = ""
+    for c in lit:
+        want += _image(c)
+    return got == want
+
+
 def around_part(a: str, b: str) -> bool:
     """literal text around a real part: the part's regex appears once, between the images of the literal characters
     pre: len(a) <= 1 and len(b) <= 1 and in_alpha(a) and in_alpha(b) and a != "^" and b != "$" and (len(a) == 0 or len(b) == 0)
